@@ -243,6 +243,24 @@ R21 = {
  "C17": "nothing that stops or clears the global response timer can precede a setupRetry call in its caller",
  "C20": "redactTLSConfig replaces sds_source under no condition other than its presence",
 }
+R22 = {
+ "C01": "the byte the tls inspector peeked is handed over by the read that finds it pending; a truncated HTTP/2 header block is refused; a forwarded HTTP/1 message gets no default Content-Type; the HTTP/1 client hands over the final response, never an interim 1xx",
+ "C03": "Timeout.GlobalTimeout is written only by parseProxyTimeout, whose last step makes it positive",
+ "C04": "the index recorded for a virtual host's domains is its slot in the live table (no configured virtual host is skipped)",
+ "C05": "a HostSet.Range callback of a load balancer ends the scan only after it stored a result",
+ "C06": "EdfLoadBalancer.refresh skips the scheduler on configuration only, never on the slow-start factors of the moment",
+ "C07": "bytes a read returns together with EOF are delivered",
+ "C08": "while a refused frame can stay in the read buffer the HTTP/2 Dispatch loops continue only under err == nil; HEADERS on a half-closed (remote) stream is refused before it can be taken for trailers",
+ "C09": "the ping-pong pool raises its connection count under clientMux",
+ "C10": "the ping-pong pool raises its connection count in the critical section that compared it with max_connections",
+ "C11": "every turn of the read loop passes the test of the listener's stop channel",
+ "C13": "GetConfigForClient answers only with a provider reached by the ordered walk over mng.providers; shared sds providers are registered only when nothing can refuse the configuration any more",
+ "C15": "the pre-index builder stores an entry into its trie only where a look-up of that position found none",
+ "C17": "Timeout.GlobalTimeout is written only by parseProxyTimeout; a request-supplied global timeout is accepted only when positive; a scheme redirect keeps the host text (IPv6 brackets)",
+ "C18": "the framer's read limit never derives from a peer's SETTINGS value; HEADERS on a half-closed (remote) stream is refused; a truncated header block is refused",
+ "C19": "every configmanager recorder stores what it is given on every path",
+ "C20": "redactRawJSON decodes into an empty interface (a document of any shape is walked)",
+}
 GENERIC = "generic hygiene over the property's packages: no loop-variable address escapes its iteration, every mutex acquired in a function is released on every path to its return and not re-acquired in a callee, a field accessed through sync/atomic is never accessed plainly outside construction (frozen exceptions), storage given back to a pool is not returned or stored, no append onto a loop-invariant slice whose result is kept, no signed remainder of a converted unsigned 64-bit value or of a wrapping signed 32-bit counter, no remainder of a 32-bit sum with an unreduced atomic counter, a receiver field a method rewrites is not retained by what the method hands it to, a key looked up in a map field under a mutex and inserted when absent is inserted in the same critical section"
 props = [json.loads(l)['id'] for l in open('/verif/properties.jsonl')]
 checks, na = [], []
@@ -274,6 +292,8 @@ for p in props:
         dec = dec + "; " + R20[p]
     if p in R21:
         dec = dec + "; " + R21[p]
+    if p in R22:
+        dec = dec + "; " + R22[p]
     dec = dec + "; " + GENERIC
     tech = tech + ", lock-balance and atomic-discipline dataflow"
     if p in R8:
